@@ -310,6 +310,9 @@ func ruleMarshalRoute(p *Prog, r *Result) {
 		if name == "bkl.(*Parser).outputDocument" || strings.HasPrefix(name, "bkl.finalize") {
 			continue
 		}
+		if p.OnlyThrough(caller, p.Func("bkl.(*Parser).outputDocument")) {
+			continue // a private helper of the gate: what it does is covered by the gate's path summary
+		}
 		r.Fail("C06.once", name+" / extra finalizeOutput call", p.InstrPos(e.Site), "the $$ unescape is applied a second time outside the output gate")
 	}
 	r.OK("C06.once", "bkl.finalizeOutput / callers", p.Pos(fin.Pos()), "called only from the output gate and its own family")
